@@ -71,6 +71,29 @@ def rename_index_history(app):
     return AppHistory(app, names, base, evolutions)
 
 
+def duplicate_index_history(app):
+    """Item(name, g, h): columns that carry TWO indexes over the same column list
+    (db_index=True next to a Meta.indexes / index_together entry), and evolutions that
+    drop one of them by looking the index up by its columns (the `lookup` steps of
+    Preview.tla)."""
+    names = Names(models={'A': 'Item', 'B': 'Tag', 'C': 'Zed'},
+                  fields={'id': 'id', 'f': 'name', 'g': 'g', 'h': 'h', 't': 'title'}, app=app)
+    a = model('A', {'f': fld('Char', max_length=20, db_index=True),
+                    'g': fld('Int', db_index=True),
+                    'h': fld('Int', db_index=True)})
+    a['idx'] = [{'name': 'item_name_idx', 'fields': ['f'], 'cond': NONE},
+                {'name': NONE, 'fields': ['h'], 'cond': NONE}]
+    a['it'] = [['g']]
+    base = {'A': a}
+    evolutions = [
+        {'label': 'e1', 'mutations': [mu(k='Chg', m='A', f='f', attrs={'db_index': False})]},
+        {'label': 'e2', 'mutations': [mu(k='Meta', m='A', prop='index_together', val=[])]},
+        {'label': 'e3', 'mutations': [mu(k='Chg', m='A', f='h', attrs={'db_index': False})]},
+        {'label': 'e4', 'mutations': [mu(k='Meta', m='A', prop='indexes', ival=[])]},
+    ]
+    return AppHistory(app, names, base, evolutions)
+
+
 # ---------------------------------------------------------------------------
 # the documented substitution rule (utils/sql.py run_sql(capture=True),
 # db/common.py quote_sql_param), restated independently
@@ -135,6 +158,12 @@ def scenarios(tier):
     for i in range(0, 4):
         for v in range(max(i + 1, 3), 5):
             out.append(('renidx:%d->%d' % (i, v), {'a1': h}, {'a1': i}, {'a1': v}, PALETTES[0]))
+    h = duplicate_index_history('shop')
+    for i in range(0, 4):
+        for v in range(i + 1, 5):
+            if tier == 'quick' and v - i > 2:
+                continue
+            out.append(('dupidx:%d->%d' % (i, v), {'a1': h}, {'a1': i}, {'a1': v}, PALETTES[0]))
     maxver = 3 if tier == 'quick' else 4
     for variant in ((0, 1, 'rename') if tier == 'quick' else (0, 1, 2, 'rename')):
         if variant == 'rename':
